@@ -36,7 +36,7 @@ Inductive stmt :=
   | SSkip
   | SSeq (s1 s2 : stmt)
   | SAssign (x : var) (a : atom_e)                      (* x = a *)
-  | SCall (x : option var) (f : fname) (args : list atom_e)   (* [x =] f(args) *)
+  | SCall (cs : nat) (x : option var) (f : fname) (args : list atom_e)   (* [x =] f(args), call site cs *)
   | SDeref (d : dsite) (x : var)                         (* _ = x.V   at source position d *)
   | SIf (c : cond) (s1 s2 : stmt)
   | SWhile (c : cond) (body : stmt)                      (* for c { body } *)
@@ -105,7 +105,7 @@ Section Exec.
           | r => r
           end
       | SAssign x a => ONormal (sset s x (eval_atom s a)) oracle
-      | SCall x f args =>
+      | SCall _ x f args =>
           match nth_error (p_funcs prog) f with
           | None => ONormal s oracle
           | Some fd =>
